@@ -2204,8 +2204,9 @@ func (f *fragment) importValueSmallWrite(columnIDs []uint64, values []int64, bit
 		_ = f.openStorage(true)
 		return err
 	}
-	rowSet := make(map[uint64]struct{}, bitDepth+1)
-	for i := uint(0); i < bitDepth+1; i++ {
+	// Affected rows: exists, sign, and one row per bit starting at bsiOffsetBit.
+	rowSet := make(map[uint64]struct{}, bitDepth+bsiOffsetBit)
+	for i := uint(0); i < bitDepth+bsiOffsetBit; i++ {
 		rowSet[uint64(i)] = struct{}{}
 	}
 	err := f.importPositions(toSet, toClear, rowSet)
